@@ -6,3 +6,4 @@ pub trait VBorrow<Q: ?Sized> {}
 impl<T> VBorrow<T> for T {}
 pub uninterp spec fn vborrow_eq<K, Q: ?Sized>(a: K, b: &Q) -> bool;
 pub proof fn vborrow_refl<K>() ensures forall|a: K, b: K| #[trigger] vborrow_eq::<K, K>(a, &b) <==> a == b { admit(); }
+#[verifier::external_body] pub fn vx_key_eq<K: VBorrow<Q>, Q: ?Sized>(a: &K, b: &Q) -> (r: bool) ensures r == vborrow_eq::<K, Q>(*a, b) { unimplemented!() }
